@@ -169,7 +169,9 @@ where C: FullDuplexUniChannel<ItemType = u64, DerivedItemType = D> + Send + Sync
     let close_flag = Arc::new(AtomicBool::new(false));
     spawn_releaser(&world, case.gate_after_close, &close_called, &close_flag, case.release_after);
     let u2 = Arc::clone(&uni);
-    let sent = send_all(Arc::new(move |v: u64| u2.send(v).is_ok()), n, case.senders).await;
+    // (items waiting for a gate that opens only after close(): in-order sending, or the 'fits behind it' construction does not hold)
+    let senders = if case.gate_after_close && behs.contains(&Beh::OkGated) { 1 } else { case.senders };
+    let sent = send_all(Arc::new(move |v: u64| u2.send(v).is_ok()), n, senders).await;
     let accepted: Vec<u64> = if sent { (1..=n).collect() } else { vec![] };
     close_flag.store(true, SeqCst);
     close_called.notify_waiters();
@@ -292,7 +294,7 @@ pub fn uni_report(case: &UniCase, clause: Clause, known_is: &dyn Fn(&str) -> boo
     let prefix = "uni";
     let mut nontrivial = false;
     let (verdict, summary) = match end {
-        CaseEnd::Done(o) if o.gave_up_sending => (Verdict::Inconclusive("sends-never-accepted".into()), "gave up sending".into()),
+        CaseEnd::Done(o) if o.gave_up_sending => { if std::env::var("RMV_SHOW_HANGS").is_ok() { eprintln!("GAVEUP {} started={:?}", serde_json::to_string(case).unwrap(), o.world.started.lock().unwrap()); } (Verdict::Inconclusive("sends-never-accepted".into()), "gave up sending".into()) },
         CaseEnd::Done(o) => {
             let buffered = o.accepted.len() - o.at_close.started.iter().map(|s| s.len()).sum::<usize>().min(o.accepted.len());
             let in_flight = o.at_close.started.iter().map(|s| s.len()).sum::<usize>() - o.at_close.finished.iter().map(|s| s.len()).sum::<usize>().min(o.at_close.started.iter().map(|s| s.len()).sum::<usize>());
@@ -324,6 +326,7 @@ fn known_for(property: &str) -> impl Fn(&str) -> bool {
 pub struct C06Uni;
 impl Property for C06Uni {
     type Case = UniCase;
+    fn attempts(&self, case: &UniCase) -> u32 { if case.rt.paused() { 1 } else { 25 } }
     fn part(&self) -> &'static str { "uni-close" }
     fn strategy(&self, _tier: Tier) -> BoxedStrategy<UniCase> { uni_case_strategy() }
     fn cases(&self, tier: Tier) -> u32 { match tier { Tier::Quick => 3_000, Tier::Thorough => 60_000 } }
@@ -338,6 +341,7 @@ impl Property for C06Uni {
 pub struct C12Uni;
 impl Property for C12Uni {
     type Case = UniCase;
+    fn attempts(&self, case: &UniCase) -> u32 { if case.rt.paused() { 1 } else { 25 } }
     fn part(&self) -> &'static str { "uni-lifecycle" }
     fn strategy(&self, _tier: Tier) -> BoxedStrategy<UniCase> { uni_case_strategy() }
     fn cases(&self, tier: Tier) -> u32 { match tier { Tier::Quick => 2_000, Tier::Thorough => 40_000 } }
@@ -352,6 +356,7 @@ impl Property for C12Uni {
 pub struct C11Uni;
 impl Property for C11Uni {
     type Case = UniCase;
+    fn attempts(&self, case: &UniCase) -> u32 { if case.rt.paused() { 1 } else { 25 } }
     fn part(&self) -> &'static str { "uni-accounting" }
     fn strategy(&self, _tier: Tier) -> BoxedStrategy<UniCase> { uni_case_strategy() }
     fn cases(&self, tier: Tier) -> u32 { match tier { Tier::Quick => 2_000, Tier::Thorough => 40_000 } }
